@@ -245,6 +245,11 @@ def _rules(ck, prog, cfg):
                     n6 += 1
                     ck.bad("R05.6", "WATCH:store-into-snapshot#%d%s" % (n6, _tag(cfg)),
                            "the WATCH arm overwrites part of an existing snapshot entry", fn.where(st["ln"]))
+                if s.kind == "path" and s.root == "self" and s.fields == ("watched_keys",):
+                    n6 += 1
+                    ck.bad("R05.6", "WATCH:replace-list%s" % _tag(cfg),
+                           "the WATCH arm assigns a new list to self.watched_keys: keys registered by an earlier WATCH of this connection are "
+                           "forgotten, a write to them no longer aborts EXEC", fn.where(st["ln"]))
     ck.floor("R05.6" + _tag(cfg), n6, 1)
     # executor-level twin: execute_watch may only add to self.watched_keys
     for ew in [g for g in prog.lib_fns() if g.short == "execute_watch" and g.file == "src/redis/executor/transaction_ops.rs"]:
